@@ -115,6 +115,9 @@ class ResetInterp:
                 return Aff.sym('h')
             if s in ('shape.width', 'grid.shape.width', 'state.grid.shape.width'):
                 return Aff.sym('w')
+            if isinstance(x, ast.Attribute) and x.attr in ('height', 'width') and \
+                    isinstance(x.value, ast.Name) and cx.env.get(x.value.id) == ('shape',):
+                return Aff.sym('h' if x.attr == 'height' else 'w')
             if isinstance(x, ast.Name):
                 v = cx.env.get(x.id)
                 if isinstance(v, tuple) and v[0] == 'aff':
@@ -157,7 +160,70 @@ class ResetInterp:
                     return ('selem', v[1], e.slice.value)
         if src(e).endswith('.agent.position') and cx.agent is not None:
             return cx.agent[0]
+        if isinstance(e, ast.Call):
+            v = self.helper_value(e, cx)
+            if isinstance(v, tuple) and v[0] in ('cell', 'elem', 'selem'):
+                return v
         return None
+
+    def helper_value(self, call: ast.Call, cx: Ctx, depth: int = 2):
+        """inline a call of a non-registered module-level helper of reset_functions.py and
+        return the abstract value it returns (None if not understood)"""
+        if depth <= 0 or not isinstance(call.func, ast.Name):
+            return None
+        mod = self.index.module(RESET)
+        fn = mod.functions.get(call.func.id)
+        if fn is None or call.func.id in self.funcs or call.func.id == 'factory':
+            return None
+        names = [a.arg for a in fn.node.args.posonlyargs + fn.node.args.args
+                 + fn.node.args.kwonlyargs]
+        bound: Dict[str, ast.AST] = dict(zip(names, call.args))
+        for k in call.keywords:
+            if k.arg:
+                bound[k.arg] = k.value
+        new_env: Dict[str, Any] = {}
+        for pn, a in bound.items():
+            if src(a) == 'shape' or cx.env.get(src(a)) == ('shape',):
+                new_env[pn] = ('shape',)
+                continue
+            av = self.aff(a, cx)
+            if av is not None:
+                new_env[pn] = ('aff', av)
+                continue
+            pv = self.position(a, cx) if not isinstance(a, ast.Call) else None
+            if pv is not None:
+                new_env[pn] = pv
+                continue
+            lv = self.poslist(a, cx)
+            if lv is not None:
+                new_env[pn] = ('list', lv)
+        saved = cx.env
+        cx.env = new_env
+        result = None
+        try:
+            for st in fn.body():
+                cx.t += 1
+                if isinstance(st, ast.Return) and st.value is not None:
+                    result = self.position(st.value, cx)
+                    if result is None:
+                        a = self.aff(st.value, cx)
+                        result = ('aff', a) if a is not None else None
+                    break
+                if isinstance(st, ast.AnnAssign) and st.value is not None:
+                    st = ast.Assign([st.target], st.value, lineno=st.lineno)
+                if isinstance(st, ast.Assign) and len(st.targets) == 1 and \
+                        isinstance(st.targets[0], (ast.Name, ast.Tuple)):
+                    self.assign(st.targets[0], st.value, st, cx, fn, [])
+                elif isinstance(st, ast.Expr) and isinstance(st.value, ast.Constant):
+                    continue
+                elif isinstance(st, ast.If) and any(isinstance(b, ast.Raise) for b in st.body):
+                    continue
+                else:
+                    result = None
+                    break
+        finally:
+            cx.env = saved
+        return result
 
     def poslist(self, e: ast.AST, cx: Ctx) -> Optional[ListInfo]:
         if isinstance(e, ast.Name):
@@ -443,6 +509,18 @@ class ResetInterp:
             if len(val.args) > 2:
                 cx.agent_holds = src(val.args[2])
             return None
+        if isinstance(tg, ast.Name) and isinstance(val, ast.Call):
+            hv = self.helper_value(val, cx)
+            if hv is not None:
+                cx.env[tg.id] = hv
+                return None
+        if isinstance(tg, (ast.Tuple, ast.List)) and isinstance(val, ast.Call):
+            hv = self.helper_value(val, cx)
+            if isinstance(hv, tuple) and hv[0] == 'cell' and len(tg.elts) == 2:
+                for e_, c_ in zip(tg.elts, hv[1:]):
+                    if isinstance(e_, ast.Name):
+                        cx.env[e_.id] = ('aff', c_)
+                return None
         if isinstance(tg, ast.Name):
             if isinstance(val, ast.Call) and src(val.func) in ('Grid.from_shape',):
                 cx.env[tg.id] = ('grid',)
